@@ -123,6 +123,23 @@ func (ac *accessCollector) classifyAddrUses(addr ssa.Value, fr fieldRef, elem bo
 			if pt != nil && isSyncType(pt.Elem()) {
 				continue // self-synchronising object (Mutex, WaitGroup, Once, atomic.Value)
 			}
+			// the address is handed to a function of the module whose body is known: what that function does
+			// through the parameter is the access (a promoted method of an embedded struct, a helper taking
+			// a pointer to the field)
+			if sc := x.Common().StaticCallee(); sc != nil && inModule(sc) && len(sc.Blocks) > 0 && !x.Common().IsInvoke() {
+				if _, plain := x.(*ssa.Call); plain {
+					followed := false
+					for k, a := range x.Common().Args {
+						if a == addr && k < len(sc.Params) {
+							ac.classifyAddrUses(sc.Params[k], fr, elem, seen)
+							followed = true
+						}
+					}
+					if followed {
+						continue
+					}
+				}
+			}
 			ac.add(fr, 'W', x, elem)
 		case *ssa.DebugRef:
 		default:
